@@ -985,3 +985,6 @@ V("C08", "syncing_scope_no_finally", "fire", "R08.c", (Z, """    parameterized._
     yield
     parameterized._param__private.syncing = old
 """))
+
+V("C18", "extend_iterable_consumed_twice", "fire", "R18.g", (P, "        # The iterable is consumed twice below\n        objects = list(objects)\n        with self._trigger():", "        with self._trigger():"))
+V("C18", "remove_prunes_by_argument_identity", "fire", "R18.c", (P, "            object = super().__getitem__(super().index(object))\n", ""))
